@@ -20,18 +20,18 @@ Record eligible_P (x : wctx) (r : request) (c : cand) : Prop := {
 
 Lemma owner_test_spec (r : request) (o : owner) :
   (if match r_scope r with
-      | Some sc => negb (N.eqb (o_scope o) sc)
+      | Some sc => negb (bool_decide (o_scope o = sc))
       | None => false
       end then false
    else N.eqb (o_acct o) (r_acct r)) = true ↔
   o_acct o = r_acct r ∧ ∀ sc, r_scope r = Some sc → o_scope o = sc.
 Proof.
   destruct (r_scope r) as [sc|].
-  - destruct (N.eqb (o_scope o) sc) eqn:He; simpl.
-    + apply N.eqb_eq in He. rewrite N.eqb_eq. split.
+  - case_bool_decide as He; simpl.
+    + rewrite N.eqb_eq. split.
       * intros Ha. split; [done|]. by intros ? [= <-].
       * by intros [Ha _].
-    + apply N.eqb_neq in He. split; [done|]. intros [_ Hs]. by specialize (Hs sc eq_refl).
+    + split; [done|]. intros [_ Hs]. by specialize (Hs sc eq_refl).
   - rewrite N.eqb_eq. split; [|by intros [? _]]. intros Ha. split; [done|]. by intros ? [=].
 Qed.
 
@@ -203,12 +203,13 @@ Proof.
   rewrite map_fmap. apply elem_of_list_fmap. by exists e.
 Qed.
 
-(** A successful loop returns, in order, one map entry per selected
-    outpoint; with the duplicate test the selection is duplicate free. *)
-Lemma select_loop_Some (b : bool) (m : gmap outpoint cand) seen sel acc l :
+(** A successful loop returns one map entry per selected outpoint that is a
+    key of the map, in order (with the miss test: per selected outpoint); with
+    the duplicate test the selection is duplicate free. *)
+Lemma select_loop_Some (b q : bool) (m : gmap outpoint cand) seen sel acc l :
   (∀ op e, m !! op = Some e → c_op e = op) →
-  select_loop b m seen sel acc = Some l →
-  ∃ l', l = acc ++ l' ∧ map c_op l' = sel ∧
+  select_loop b q m seen sel acc = Some l →
+  ∃ l', l = acc ++ l' ∧ map c_op l' `sublist_of` sel ∧ (q = true → map c_op l' = sel) ∧
         (∀ e, e ∈ l' → m !! c_op e = Some e) ∧
         (b = true → NoDup sel ∧ ∀ op, op ∈ sel → op ∉ seen).
 Proof.
@@ -217,22 +218,31 @@ Proof.
     + intros e He. by apply elem_of_nil in He.
     + intros _. split; [constructor|]. intros op Hop. by apply elem_of_nil in Hop.
   - destruct (b && bool_decide (op ∈ seen)) eqn:Hd; [done|].
-    destruct (m !! op) as [e|] eqn:He; [|done].
-    intros H. apply IH in H as (l' & -> & Hmap & Hall & Hb).
-    exists (e :: l'). split_and!.
-    + by rewrite <-app_assoc.
-    + simpl. by rewrite (Hm _ _ He), Hmap.
-    + intros e' He'. apply elem_of_cons in He' as [->|He']; [|by apply Hall].
-      by rewrite (Hm _ _ He).
-    + intros ->. destruct (Hb eq_refl) as [Hnd Hseen]. simpl in Hd.
-      apply bool_decide_eq_false in Hd. split.
+    assert (b = true → op ∉ seen) as Hns.
+    { intros ->. simpl in Hd. by apply bool_decide_eq_false in Hd. }
+    destruct (m !! op) as [e|] eqn:He.
+    + intros H. apply IH in H as (l' & -> & Hsub & Hq & Hall & Hb).
+      exists (e :: l'). split_and!.
+      * by rewrite <-app_assoc.
+      * simpl. rewrite (Hm _ _ He). by constructor.
+      * intros Hqt. simpl. by rewrite (Hm _ _ He), (Hq Hqt).
+      * intros e' He'. apply elem_of_cons in He' as [->|He']; [|by apply Hall].
+        by rewrite (Hm _ _ He).
+      * intros Hbt. destruct (Hb Hbt) as [Hnd Hseen]. split.
+        -- constructor; [|done]. intros Hin. apply (Hseen _ Hin). by left.
+        -- intros op' Hop'. apply elem_of_cons in Hop' as [->|Hop']; [by apply Hns|].
+           intros Hin. apply (Hseen _ Hop'). by right.
+    + destruct q; [done|].
+      intros H. apply IH in H as (l' & -> & Hsub & Hq & Hall & Hb).
+      exists l'. split_and!; [done|by constructor|done|done|].
+      intros Hbt. destruct (Hb Hbt) as [Hnd Hseen]. split.
       * constructor; [|done]. intros Hin. apply (Hseen _ Hin). by left.
-      * intros op' Hop'. apply elem_of_cons in Hop' as [->|Hop']; [done|].
+      * intros op' Hop'. apply elem_of_cons in Hop' as [->|Hop']; [by apply Hns|].
         intros Hin. apply (Hseen _ Hop'). by right.
 Qed.
 
 Lemma select_loop_miss (b : bool) (m : gmap outpoint cand) seen sel acc op :
-  op ∈ sel → m !! op = None → select_loop b m seen sel acc = None.
+  op ∈ sel → m !! op = None → select_loop b true m seen sel acc = None.
 Proof.
   revert seen acc. induction sel as [|op' sel IH]; intros seen acc Hin Hnone; simpl.
   - by apply elem_of_nil in Hin.
@@ -245,9 +255,9 @@ Qed.
 
 (** Completeness (used for non-vacuity): a duplicate-free selection of
     eligible outpoints is accepted. *)
-Lemma select_loop_complete (b : bool) (m : gmap outpoint cand) seen sel acc :
+Lemma select_loop_complete (b q : bool) (m : gmap outpoint cand) seen sel acc :
   (∀ op, op ∈ sel → is_Some (m !! op)) → NoDup sel → (∀ op, op ∈ sel → op ∉ seen) →
-  is_Some (select_loop b m seen sel acc).
+  is_Some (select_loop b q m seen sel acc).
 Proof.
   revert seen acc. induction sel as [|op sel IH]; intros seen acc Hall Hnd Hseen; simpl; [by eexists|].
   assert (bool_decide (op ∈ seen) = false) as ->.
@@ -261,27 +271,28 @@ Proof.
     apply (Hseen op'); [by right|done].
 Qed.
 
-Lemma explicit_select_gen_Some b elig sel l :
-  explicit_select_gen b elig sel = Some l →
-  map c_op l = sel ∧ (∀ e, e ∈ l → e ∈ elig) ∧ (b = true → NoDup sel).
+Lemma explicit_select_gen_Some b q elig sel l :
+  explicit_select_gen b q elig sel = Some l →
+  map c_op l `sublist_of` sel ∧ (q = true → map c_op l = sel) ∧
+  (∀ e, e ∈ l → e ∈ elig) ∧ (b = true → NoDup sel).
 Proof.
   unfold explicit_select_gen. intros H.
-  apply select_loop_Some in H as (l' & -> & Hmap & Hall & Hb).
-  - simpl. split_and!; [done| |].
+  apply select_loop_Some in H as (l' & -> & Hsub & Hmap & Hall & Hb).
+  - simpl. split_and!; [done|done| |].
     + intros e He. by apply Hall, by_outpoint_lookup in He as [He _].
     + intros Hbt. by destruct (Hb Hbt).
   - intros op e He. by apply by_outpoint_lookup in He as [_ He].
 Qed.
 
 Lemma explicit_select_gen_refuses b elig sel op :
-  op ∈ sel → op ∉ map c_op elig → explicit_select_gen b elig sel = None.
+  op ∈ sel → op ∉ map c_op elig → explicit_select_gen b true elig sel = None.
 Proof.
   intros Hin Hn. unfold explicit_select_gen.
   eapply select_loop_miss; [done|]. by apply by_outpoint_None.
 Qed.
 
-Lemma explicit_select_gen_accepts b elig sel :
-  NoDup sel → (∀ op, op ∈ sel → op ∈ map c_op elig) → is_Some (explicit_select_gen b elig sel).
+Lemma explicit_select_gen_accepts b q elig sel :
+  NoDup sel → (∀ op, op ∈ sel → op ∈ map c_op elig) → is_Some (explicit_select_gen b q elig sel).
 Proof.
   intros Hnd Hall. unfold explicit_select_gen. apply select_loop_complete; [|done|].
   - intros op Hop. by apply by_outpoint_is_Some, Hall.
@@ -290,9 +301,9 @@ Qed.
 
 (** Without the duplicate test, a selection that names an eligible outpoint
     twice is accepted and spends it twice. *)
-Lemma explicit_select_gen_duplicate elig c :
+Lemma explicit_select_gen_duplicate q elig c :
   c ∈ elig → NoDup (map c_op elig) →
-  explicit_select_gen false elig [c_op c; c_op c] = Some [c; c].
+  explicit_select_gen false q elig [c_op c; c_op c] = Some [c; c].
 Proof.
   intros Hin Hnd. unfold explicit_select_gen.
   destruct (by_outpoint_is_Some elig (c_op c)) as [e He].
@@ -306,6 +317,21 @@ Proof.
   eapply NoDup_lookup; [exact Hnd| |].
   - by rewrite list_lookup_fmap, Hi.
   - by rewrite list_lookup_fmap, Hj, <-Heop.
+Qed.
+
+(** Without the miss test, a selection naming an outpoint outside the
+    eligible set is NOT refused: the outpoint is passed over and the rest of
+    the selection is used. *)
+Lemma explicit_select_gen_passes_over b elig sel op :
+  op ∉ map c_op elig → op ∉ sel → NoDup sel → (∀ o, o ∈ sel → o ∈ map c_op elig) →
+  is_Some (explicit_select_gen b false elig (op :: sel)).
+Proof.
+  intros Hn Hns Hnd Hall. unfold explicit_select_gen. cbn [select_loop].
+  rewrite bool_decide_eq_false_2 by (intros H; by apply elem_of_nil in H). rewrite andb_false_r.
+  rewrite (by_outpoint_None _ _ Hn).
+  apply select_loop_complete; [|done|].
+  - intros o Ho. by apply by_outpoint_is_Some, Hall.
+  - intros o Ho Hin. apply elem_of_cons in Hin as [->|Hin]; [done|]. by apply elem_of_nil in Hin.
 Qed.
 
 (** * Created transactions *)
@@ -335,7 +361,7 @@ Proof.
     etrans; [apply inputs_after_submseteq|]. by apply arrange_submseteq.
   - assert (r_explicit r ≠ []) as Hne by (by rewrite Hsel).
     pose proof (create_explicit _ _ _ _ _ _ Hne Hc) as He.
-    apply explicit_select_gen_Some in He as (_ & Hall & _). by apply Hall.
+    apply explicit_select_gen_Some in He as (_ & _ & Hall & _). by apply Hall.
 Qed.
 
 Lemma submseteq_fmap_NoDup {A B} (f : A → B) (k l : list A) :
@@ -354,14 +380,15 @@ Proof.
   apply sublist_submseteq, eligible_sublist.
 Qed.
 
-(** Explicit selection: the inputs are exactly the selection, in order; with
-    the duplicate test no output is used twice. *)
+(** Explicit selection: the inputs are exactly the selection, in order (this
+    needs the miss test); with the duplicate test no output is used twice. *)
 Lemma create_explicit_exact x r shuffle targets cs cr :
+  explicit_selection_requires_eligible = true →
   r_explicit r ≠ [] → create x r shuffle targets cs = Some cr →
   map c_op (cr_inputs cr) = r_explicit r.
 Proof.
-  intros Hne Hc. pose proof (create_explicit _ _ _ _ _ _ Hne Hc) as He.
-  by apply explicit_select_gen_Some in He as (Hmap & _ & _).
+  intros Hfact Hne Hc. pose proof (create_explicit _ _ _ _ _ _ Hne Hc) as He.
+  apply explicit_select_gen_Some in He as (_ & Hmap & _ & _). by apply Hmap.
 Qed.
 
 Lemma create_explicit_NoDup x r shuffle targets cs cr :
@@ -370,19 +397,20 @@ Lemma create_explicit_NoDup x r shuffle targets cs cr :
   NoDup (map c_op (cr_inputs cr)).
 Proof.
   intros Hfact Hne Hc. pose proof (create_explicit _ _ _ _ _ _ Hne Hc) as He.
-  apply explicit_select_gen_Some in He as (Hmap & _ & Hb).
-  rewrite Hmap. by apply Hb.
+  apply explicit_select_gen_Some in He as (Hsub & _ & _ & Hb).
+  eapply sublist_NoDup'; [exact Hsub|]. by apply Hb.
 Qed.
 
 (** An explicit selection that names an outpoint outside the eligible set is
-    refused. *)
+    refused (this is what the miss test is for). *)
 Lemma create_explicit_refused x r shuffle targets cs op :
+  explicit_selection_requires_eligible = true →
   op ∈ r_explicit r → op ∉ map c_op (eligible x r cs) →
   create x r shuffle targets cs = None.
 Proof.
-  intros Hin Hn. unfold create.
+  intros Hfact Hin Hn. unfold create.
   destruct (r_explicit r) as [|op' sel] eqn:Hsel; [by apply elem_of_nil in Hin|].
-  unfold explicit_select. by rewrite (explicit_select_gen_refuses _ _ _ op Hin Hn).
+  unfold explicit_select. rewrite Hfact. by rewrite (explicit_select_gen_refuses _ _ _ op Hin Hn).
 Qed.
 
 (** ... in particular when the reason is any single failed test. *)
@@ -395,10 +423,33 @@ Qed.
 
 Lemma create_signed x r shuffle targets cs cr :
   create x r shuffle targets cs = Some cr →
-  cr_signed cr = negb (r_dry r) && negb (x_watch_only x).
+  cr_signed cr = negb (r_dry r) && negb (skip_signing x r (cr_inputs cr)).
 Proof.
   unfold create. destruct (r_explicit r); [by intros [= <-]|].
   destruct (explicit_select _ _); [by intros [= <-]|done].
+Qed.
+
+(** The decision spelled out: a result is signed iff it is not a dry run and
+    either the account is not reported watch-only, or it is the imported
+    account of a wallet with private keys and every input's key is held. *)
+Lemma create_signed_iff x r shuffle targets cs cr :
+  create x r shuffle targets cs = Some cr →
+  cr_signed cr = true ↔
+  r_dry r = false ∧
+  (x_watch_only x = false ∨
+   (r_acct r = imported_account ∧ x_wallet_wo x = false ∧ ∀ c, c ∈ cr_inputs cr → has_priv c = true)).
+Proof.
+  intros Hc. rewrite (create_signed _ _ _ _ _ _ Hc). unfold skip_signing.
+  rewrite andb_true_iff, !negb_true_iff. split.
+  - intros [Hd Hs]. split; [done|].
+    apply andb_false_iff in Hs as [Hs|Hs]; [by left|right].
+    apply negb_false_iff in Hs. apply andb_true_iff in Hs as [Hs Hall].
+    apply andb_true_iff in Hs as [Ha Hw]. apply N.eqb_eq in Ha. apply negb_true_iff in Hw.
+    split_and!; [done|done|]. intros c Hin. rewrite forallb_forall in Hall. apply Hall. by apply elem_of_list_In.
+  - intros [Hd [Hw|(Ha & Hw & Hall)]]; (split; [done|]).
+    + by rewrite Hw.
+    + apply andb_false_iff. right. apply negb_false_iff.
+      rewrite Ha, N.eqb_refl, Hw. simpl. apply forallb_forall. intros c Hin. apply Hall. by apply elem_of_list_In.
 Qed.
 
 (** * The candidates against the ledger *)
@@ -544,15 +595,89 @@ Proof.
   unfold wallet_cands in Hcin. rewrite map_fmap. apply elem_of_list_fmap. by exists c.
 Qed.
 
-(** Wallet-side events never forget a transaction. *)
-Lemma spec_step_known_wallet_side U sm e t :
-  wallet_side e = true → known (fs sm) t = true → known (fs (spec_step U sm e)) t = true.
+(** * Publishing: which events make the ledger forget a transaction *)
+
+Lemma descendants_roots U fuel uc roots t : t ∈ roots → t ∈ descendants U fuel uc roots.
 Proof.
-  intros Hw Hk. destruct e; simpl in Hw; try discriminate Hw; simpl.
+  revert roots. induction fuel as [|f IH]; intros roots Hin; simpl; [done|].
+  destruct (filter _ uc) as [|n new]; [done|].
+  apply IH. apply elem_of_app. by left.
+Qed.
+
+Lemma known_conf F t : is_Some (f_conf F !! t) → known F t = true.
+Proof. intros H. unfold known. apply orb_true_iff. left. by apply bool_decide_eq_true. Qed.
+
+Lemma known_unconf F t : t ∈ f_unconf F → known F t = true.
+Proof. intros H. unfold known. apply orb_true_iff. right. by apply bool_decide_eq_true. Qed.
+
+Lemma known_inv F t : known F t = true → is_Some (f_conf F !! t) ∨ t ∈ f_unconf F.
+Proof.
+  unfold known. intros H. apply orb_true_iff in H as [H|H]; apply bool_decide_eq_true in H; auto.
+Qed.
+
+Lemma filter_none {A} (P : A → Prop) `{Hdec : !∀ x, Decision (P x)} (l : list A) :
+  (∀ x, x ∈ l → ¬ P x) → filter P l = [].
+Proof.
+  induction l as [|a l IH]; intros Hall; [done|].
+  rewrite filter_cons. destruct (decide (P a)) as [Hp|_].
+  - exfalso. apply (Hall a); [by left|done].
+  - apply IH. intros x Hx. apply Hall. by right.
+Qed.
+
+Lemma descendants_childless U fuel uc t :
+  (∀ u, u ∈ uc → u ≠ t → spends_output_of U u t = false) →
+  descendants U fuel uc [t] = [t].
+Proof.
+  intros Hno. destruct fuel as [|f]; simpl; [done|].
+  rewrite filter_none; [done|].
+  intros u Hu [Hnin Hsp]. apply bool_decide_unpack in Hnin.
+  assert (u ≠ t) as Hne by (intros ->; apply Hnin; by left).
+  simpl in Hsp. rewrite (Hno u Hu Hne) in Hsp. done.
+Qed.
+
+Local Arguments descendants : simpl never.
+
+(** An event forgets only the transactions in [displaced]. *)
+Lemma known_step_preserved U sm e t :
+  known (fs sm) t = true → t ∉ displaced U (fs sm) e → known (fs (spec_step U sm e)) t = true.
+Proof.
+  intros Hk Hnd. destruct e as [t'|c h bhash bt|h|a|id op dur|id op|dt| |t' ob]; simpl.
   - (* Seen *)
-    unfold spec_seen. match goal with |- context [known (fs sm) ?t'] => destruct (known (fs sm) t') eqn:Hk' end; [done|].
-    unfold known in *. simpl. apply orb_true_iff in Hk as [Hk|Hk]; apply orb_true_iff; [by left|right].
-    apply bool_decide_eq_true in Hk. apply bool_decide_eq_true. set_solver.
+    unfold spec_seen. destruct (known (fs sm) t') eqn:Hk'; [done|].
+    apply known_inv in Hk as [Hk|Hk]; [by apply known_conf|].
+    apply known_unconf. simpl. set_solver.
+  - (* Confirm *)
+    unfold spec_confirm. simpl in Hnd.
+    destruct (f_conf (fs sm) !! c) as [b0|] eqn:Hc; [done|].
+    unfold remove_unconf_with_descendants. simpl.
+    apply known_inv in Hk as [Hk|Hk].
+    + apply known_conf. simpl. destruct (decide (c = t)) as [->|Hne].
+      * rewrite lookup_insert. by eexists.
+      * by rewrite lookup_insert_ne.
+    + destruct (decide (c = t)) as [->|Hne].
+      * apply known_conf. simpl. rewrite lookup_insert. by eexists.
+      * apply known_unconf. simpl. apply elem_of_filter. split; [exact Hnd|]. set_solver.
+  - (* Disconnect *)
+    unfold spec_disconnect. simpl in Hnd. simpl.
+    apply known_inv in Hk as [[[ht bh] Hk]|Hk].
+    + destruct (decide (h <= ht)) as [Hle|Hgt].
+      * (* detached *)
+        assert (t ∈ map fst (filter (λ kv : txid * blockid, h <= kv.2.1) (map_to_list (f_conf (fs sm))))) as Hgone.
+        { rewrite map_fmap. apply elem_of_list_fmap. exists (t, (ht, bh)). split; [done|].
+          apply elem_of_list_filter. split; [done|]. by apply elem_of_map_to_list. }
+        destruct (is_coinbase U t) eqn:Hcb.
+        -- exfalso. apply Hnd. apply descendants_roots.
+           apply elem_of_list_filter. split; [by rewrite Hcb|done].
+        -- apply known_unconf. simpl. apply elem_of_filter. split; [exact Hnd|].
+           apply elem_of_union. right. apply elem_of_list_to_set.
+           apply elem_of_list_filter. split; [by rewrite Hcb|done].
+      * apply known_conf. simpl. exists (ht, bh).
+        apply map_filter_lookup_Some. split; [done|]. simpl. lia.
+    + apply known_unconf. simpl. apply elem_of_filter. split; [exact Hnd|]. set_solver.
+  - (* Abandon *)
+    unfold spec_abandon, remove_unconf_with_descendants. simpl in Hnd. simpl.
+    apply known_inv in Hk as [Hk|Hk]; [by apply known_conf|].
+    apply known_unconf. simpl. apply elem_of_filter. by split.
   - (* Lease *)
     unfold spec_lease. destruct (negb _); [done|].
     match goal with |- context [f_leases (fs sm) !! ?op] => destruct (f_leases (fs sm) !! op) as [l|] end;
@@ -561,17 +686,29 @@ Proof.
     unfold spec_release. destruct (negb _); [done|].
     match goal with |- context [f_leases (fs sm) !! ?op] => destruct (f_leases (fs sm) !! op) as [l|] end;
       [destruct (_ && _)|]; done.
-  - (* Tick *) done.
-  - (* Sweep *) done.
+  - done.
+  - done.
+  - done.
 Qed.
 
-Lemma spec_run_from_known_wallet_side U sm evs t :
-  forallb wallet_side evs = true → known (fs sm) t = true →
+Lemma known_run_preserved U sm evs t :
+  known (fs sm) t = true → never_displaced U sm t evs = true →
   known (fs (spec_run_from U sm evs)) t = true.
 Proof.
+  revert sm. induction evs as [|e evs IH]; intros sm Hk Hnd; simpl; [done|].
+  simpl in Hnd. apply andb_true_iff in Hnd as [He Hevs].
+  apply negb_true_iff, bool_decide_eq_false in He.
+  apply IH; [|done]. by apply known_step_preserved.
+Qed.
+
+(** Wallet-side events displace nothing. *)
+Lemma wallet_side_never_displaced U sm t evs :
+  forallb wallet_side evs = true → never_displaced U sm t evs = true.
+Proof.
   revert sm. induction evs as [|e evs IH]; intros sm; simpl; [done|].
-  rewrite andb_true_iff. intros [He Hevs] Hk. apply IH; [done|].
-  by apply spec_step_known_wallet_side.
+  rewrite andb_true_iff. intros [He Hevs]. apply andb_true_iff. split; [|by apply IH].
+  apply negb_true_iff, bool_decide_eq_false.
+  destruct e; simpl in He; try discriminate He; simpl; apply not_elem_of_nil.
 Qed.
 
 Lemma spec_seen_known U F t : known (spec_seen U F t) t = true.
@@ -584,10 +721,47 @@ Lemma spec_run_app U h1 h2 :
   spec_run U (h1 ++ h2) = spec_run_from U (spec_run U h1) h2.
 Proof. unfold spec_run, spec_run_from. by rewrite foldl_app. Qed.
 
-(** Once a created transaction [t] has been published ([Seen t]), then after
-    ANY later sequence of wallet-side events (further publications, leases,
-    releases, clock advances, sweeps) no created transaction - whatever the
-    request, strategy, shuffle, targets, locks - spends an input of [t]. *)
+(** Once a transaction [t] has been published (recorded: [Seen t]), then after
+    ANY later events - the wallet's own, the chain's and other wallets'
+    (receipts, spends, confirmations, reorganisations, removals, leases,
+    rejected publications of other transactions) - that do not make the
+    ledger forget [t] ([never_displaced]: no conflicting transaction is
+    confirmed, no coinbase it descends from is detached, neither it nor an
+    ancestor is abandoned), no created transaction - whatever the request,
+    strategy, shuffle, targets, locks - spends an input of [t]. *)
+Theorem published_inputs_never_reused_gen U h0 t later x r shuffle targets own aty vsz cr op :
+  wf_universe U = true → is_shuffle shuffle →
+  chain_consistent U (h0 ++ publish_accepted t ++ later) = true →
+  never_displaced U (spec_run U (h0 ++ publish_accepted t)) t later = true →
+  op ∈ tx_ins U t →
+  create x r shuffle targets (wallet_cands U (run U (h0 ++ publish_accepted t ++ later)) own aty vsz) = Some cr →
+  op ∉ map c_op (cr_inputs cr).
+Proof.
+  intros Hwf Hs Hcons Hnd Hop Hc.
+  eapply known_spender_excludes; [done|exact Hcons|done| |exact Hop|exact Hc].
+  rewrite app_assoc, spec_run_app. apply known_run_preserved; [|done].
+  rewrite spec_run_app. simpl. apply spec_seen_known.
+Qed.
+
+(** The same with the publication tied to a creation: [t] is the transaction
+    whose inputs an earlier request selected ([is_tx_of]); none of THOSE
+    inputs is selected again. *)
+Theorem created_then_published_never_reused U h0 t later x0 r0 sh0 tg0 cr0 x r shuffle targets own aty vsz cr c0 :
+  wf_universe U = true → is_shuffle shuffle →
+  create x0 r0 sh0 tg0 (wallet_cands U (run U h0) own aty vsz) = Some cr0 →
+  is_tx_of U t cr0 = true →
+  chain_consistent U (h0 ++ publish_accepted t ++ later) = true →
+  never_displaced U (spec_run U (h0 ++ publish_accepted t)) t later = true →
+  create x r shuffle targets (wallet_cands U (run U (h0 ++ publish_accepted t ++ later)) own aty vsz) = Some cr →
+  c0 ∈ cr_inputs cr0 → c_op c0 ∉ map c_op (cr_inputs cr).
+Proof.
+  intros Hwf Hs Hc0 Ht Hcons Hnd Hc Hin.
+  eapply published_inputs_never_reused_gen; [done|done|exact Hcons|exact Hnd| |exact Hc].
+  apply bool_decide_eq_true in Ht. rewrite Ht, map_fmap. apply elem_of_list_fmap. by exists c0.
+Qed.
+
+(** The special case of wallet-side later events (further publications,
+    leases, releases, clock advances, sweeps). *)
 Theorem published_inputs_never_reused U h0 t later x r shuffle targets own aty vsz cr op :
   wf_universe U = true → is_shuffle shuffle →
   chain_consistent U (h0 ++ Seen t :: later) = true →
@@ -597,10 +771,51 @@ Theorem published_inputs_never_reused U h0 t later x r shuffle targets own aty v
   op ∉ map c_op (cr_inputs cr).
 Proof.
   intros Hwf Hs Hcons Hlater Hop Hc.
-  eapply known_spender_excludes; [done|exact Hcons|done| |exact Hop|exact Hc].
-  replace (h0 ++ Seen t :: later) with ((h0 ++ [Seen t]) ++ later) by (by rewrite <-app_assoc).
-  rewrite spec_run_app. apply spec_run_from_known_wallet_side; [done|].
-  rewrite spec_run_app. simpl. apply spec_seen_known.
+  eapply (published_inputs_never_reused_gen U h0 t later); [done|done|exact Hcons| |exact Hop|exact Hc].
+  by apply wallet_side_never_displaced.
+Qed.
+
+(** * A publication that the backend refuses leaves no trace *)
+
+(** Ledger facts: recording a not yet known transaction that nobody spends
+    and removing it again gives back the facts. *)
+Lemma spec_reject_restores U F t :
+  known F t = false →
+  (∀ u, u ∈ f_unconf F → spends_output_of U u t = false) →
+  spec_abandon U (spec_seen U F t) t = F.
+Proof.
+  intros Hk Hno. unfold spec_seen. rewrite Hk.
+  unfold spec_abandon, remove_unconf_with_descendants. simpl.
+  assert (t ∉ f_unconf F) as Hnu.
+  { intros Hin. by rewrite (known_unconf _ _ Hin) in Hk. }
+  rewrite descendants_childless.
+  - destruct F as [cf uc ls]. simpl in *. f_equal.
+    apply set_eq. intros u. rewrite elem_of_filter. split.
+    + intros [Hn Hu]. apply elem_of_union in Hu as [Hu|Hu]; [|done].
+      apply elem_of_singleton in Hu as ->. exfalso. apply Hn. by left.
+    + intros Hu. split; [|set_solver]. intros Hin. apply elem_of_list_singleton in Hin as ->. done.
+  - intros u Hu Hne. apply Hno. apply elem_of_elements in Hu. set_solver.
+Qed.
+
+(** The wallet's candidates after a publication of a fresh transaction [t]
+    that the backend refused ([Seen t], [Abandon t]) are the candidates before
+    it: the inputs are spendable again, nothing else changed.  "Fresh": the
+    ledger does not know [t] and no unconfirmed transaction spends an output
+    of it (it has just been created). *)
+Theorem rejected_publish_restores_candidates U h t own aty vsz :
+  wf_universe U = true →
+  chain_consistent U (h ++ publish_rejected t) = true →
+  known (fs (spec_run U h)) t = false →
+  (∀ u, u ∈ f_unconf (fs (spec_run U h)) → spends_output_of U u t = false) →
+  wallet_cands U (run U (h ++ publish_rejected t)) own aty vsz ≡ₚ wallet_cands U (run U h) own aty vsz.
+Proof.
+  intros Hwf Hcons Hk Hno.
+  destruct (refinement U _ Hwf Hcons) as [HI2 Hc2].
+  destruct (refinement_prefix U _ h Hwf Hcons) as [HI1 Hc1]; [by apply prefix_app_r|].
+  unfold wallet_cands, cands_of. rewrite !map_fmap. apply fmap_Permutation.
+  rewrite (utxos_correct U _ _ _ Hwf HI2), (utxos_correct U _ _ _ Hwf HI1).
+  rewrite Hc2, Hc1. rewrite spec_run_app. unfold publish_rejected, spec_run_from. simpl.
+  by rewrite (spec_reject_restores U _ t Hk Hno).
 Qed.
 
 (** An explicit selection naming an output that a known transaction spends,
@@ -613,25 +828,27 @@ Proof.
 Qed.
 
 Theorem explicit_spent_refused U h x r shuffle targets own aty vsz t op :
+  explicit_selection_requires_eligible = true →
   wf_universe U = true → chain_consistent U h = true →
   known (fs (spec_run U h)) t = true → op ∈ tx_ins U t → op ∈ r_explicit r →
   create x r shuffle targets (wallet_cands U (run U h) own aty vsz) = None.
 Proof.
-  intros Hwf Hcons Hk Hop Hsel.
+  intros Hfact Hwf Hcons Hk Hop Hsel.
   destruct (refinement U h Hwf Hcons) as [HI _].
-  apply (create_explicit_refused _ _ _ _ _ op Hsel).
+  apply (create_explicit_refused _ _ _ _ _ op Hfact Hsel).
   apply not_candidate_not_eligible. unfold wallet_cands.
   by eapply (spent_by_known_not_candidate U _ _ Hwf HI).
 Qed.
 
 Theorem explicit_leased_refused U h x r shuffle targets own aty vsz op :
+  explicit_selection_requires_eligible = true →
   wf_universe U = true → chain_consistent U h = true →
   leased (fs (spec_run U h)) op (clock (run U h)) = true → op ∈ r_explicit r →
   create x r shuffle targets (wallet_cands U (run U h) own aty vsz) = None.
 Proof.
-  intros Hwf Hcons Hl Hsel.
+  intros Hfact Hwf Hcons Hl Hsel.
   destruct (refinement U h Hwf Hcons) as [HI _].
-  apply (create_explicit_refused _ _ _ _ _ op Hsel).
+  apply (create_explicit_refused _ _ _ _ _ op Hfact Hsel).
   apply not_candidate_not_eligible. unfold wallet_cands.
   rewrite cands_of_ops, map_fmap. intros Hin.
   apply elem_of_list_fmap in Hin as (u & -> & Hu).
